@@ -47,19 +47,22 @@ Definition reg_prechecks (cfg : config) (callee : session) (opts : dict) (proc :
 Definition share_ok (r : registration) (invoke : string) (sid : N) : bool :=
   shared_policy (reg_policy r) && String.eqb (reg_policy r) invoke && negb (nmem sid (reg_callees r)).
 
-(** [disc]: the joining callee asked for disclose_caller (and was allowed to) *)
-Definition reg_add_callee (r : registration) (sid : N) (disc : bool) : registration :=
+(** [disc]: the joining callee asked for disclose_caller (and was allowed to);
+    [fwd]: it asked for forward_timeout *)
+Definition reg_add_callee (r : registration) (sid : N) (disc fwd : bool) : registration :=
   mkReg (reg_id r) (reg_proc r) (reg_match r) (reg_policy r)
         (if disc then reg_disclose r ++ [sid] else reg_disclose r)
-        (reg_fwd_timeout r) (reg_next r) (reg_callees r ++ [sid]).
+        (if fwd then reg_fwd_timeout r ++ [sid] else reg_fwd_timeout r)
+        (reg_next r) (reg_callees r ++ [sid]).
 
-Definition share_state (d : dealer) (r : registration) (sid : N) (disc : bool) : dealer :=
-  let d1 := d_set_regs d (nset (d_regs d) (reg_id r) (reg_add_callee r sid disc)) in
+Definition share_state (d : dealer) (r : registration) (sid : N) (disc fwd : bool) : dealer :=
+  let d1 := d_set_regs d (nset (d_regs d) (reg_id r) (reg_add_callee r sid disc fwd)) in
   d_set_callee_regs d1 (callee_add_reg (d_callee_regs d1) sid (reg_id r)).
 
 Definition new_reg (d : dealer) (opts : dict) (proc : string) (sid : N) : registration :=
   mkReg (idgen_next (d_idgen d)) proc (opt_string opts "match") (opt_string opts "invoke")
-        (if opt_bool opts "disclose_caller" then [sid] else []) (opt_bool opts "forward_timeout") 0 [sid].
+        (if opt_bool opts "disclose_caller" then [sid] else [])
+        (if opt_bool opts "forward_timeout" then [sid] else []) 0 [sid].
 
 Definition new_state (d : dealer) (opts : dict) (proc : string) (sid : N) : dealer :=
   let r := new_reg d opts proc sid in
@@ -74,7 +77,7 @@ Lemma register_existing : forall cfg d callee req opts proc r,
     reg_lookup d (opt_string opts "match") proc = Some r ->
     register cfg d callee req opts proc =
     if share_ok r (opt_string opts "invoke") (s_id callee)
-    then (share_state d r (s_id callee) (opt_bool opts "disclose_caller"), [(s_id callee, RRegistered req (reg_id r))],
+    then (share_state d r (s_id callee) (opt_bool opts "disclose_caller") (opt_bool opts "forward_timeout"), [(s_id callee, RRegistered req (reg_id r))],
           if negb (str_prefix_wamp proc) then [mkMetaPub t_reg_on_register [vid (s_id callee); vid (reg_id r)] [] []] else [])
     else (d, [(s_id callee, RError c_REGISTER req [] e_procedure_exists [] [])], []).
 Proof.
@@ -133,7 +136,8 @@ Theorem share_rules_proof : forall cfg d callee req opts proc,
              /\ invoke = reg_policy r /\ ~ In sid (reg_callees r))) /\
        (share_ok r invoke sid = true ->
         exists mps, register cfg d callee req opts proc =
-                    (share_state d r sid (opt_bool opts "disclose_caller"), [(sid, RRegistered req (reg_id r))], mps)) /\
+                    (share_state d r sid (opt_bool opts "disclose_caller") (opt_bool opts "forward_timeout"),
+                     [(sid, RRegistered req (reg_id r))], mps)) /\
        (share_ok r invoke sid = false ->
         register cfg d callee req opts proc = (d, [(sid, RError c_REGISTER req [] e_procedure_exists [] [])], []))).
 Proof.
@@ -181,7 +185,7 @@ Lemma del_callee_reg_cases : forall d sid regid,
           | cs => del_callee_reg d sid regid =
                   (d_set_regs d (nset (d_regs d) regid
                      (mkReg (reg_id r) (reg_proc r) (reg_match r) (reg_policy r) (nremove1 sid (reg_disclose r))
-                            (reg_fwd_timeout r) (reg_next r) cs)), Some false)
+                            (nremove1 sid (reg_fwd_timeout r)) (reg_next r) cs)), Some false)
           end
         else del_callee_reg d sid regid = (d, None)
     end.
